@@ -115,7 +115,7 @@ def _subtree_(task):
         except OSError:
             pass
     (modname, famname, tier, prefix, terms, budget_s, budget_paths, every, seed,
-     selftest, dump_max) = task
+     selftest, dump_max, want_digest) = task
     if not _seen_code and 'mon' not in _worker_state:
         _worker_state['mon'] = True
         _mon_start()
@@ -136,7 +136,7 @@ def _subtree_(task):
     agg = {
         'paths': 0, 'status': {}, 'violations': [], 'n_violation_paths': 0, 'reached': set(),
         'validated': 0, 'samples': [], 'nontrivial': 0, 'max_depth': 0, 'issues': [],
-        'labels': {},
+        'labels': {}, 'digests': [],
     }
     seen_before = len(_seen_code)
     while stack:
@@ -145,7 +145,10 @@ def _subtree_(task):
         pfx, tms = stack.pop()
         validate = _want_validate(pfx, every, seed)
         want_sample = len(agg['samples']) < 1 and agg['paths'] % 5 == 0
-        r = run_path(fn, params, pfx, tms, validate=validate, want_sample=want_sample)
+        r = run_path(fn, params, pfx, tms, validate=validate, want_sample=want_sample,
+                     want_digest=want_digest)
+        if r.key is not None:
+            agg['digests'].append((r.key, r.digest))
         agg['paths'] += 1
         agg['status'][r.status] = agg['status'].get(r.status, 0) + 1
         agg['reached'] |= r.reached
@@ -184,7 +187,7 @@ def _subtree_(task):
 
 
 def explore(modname, fam, tier, seed=0, workers=None, selftest=False, dump_max=0,
-            classify=None):
+            classify=None, want_digest=False):
     """explore one family exhaustively (within its budget); returns a report dict"""
     params, opts = fam.config(tier)
     workers = workers or int(os.environ.get("VERIF_WORKERS", "0")) or \
@@ -196,7 +199,7 @@ def explore(modname, fam, tier, seed=0, workers=None, selftest=False, dump_max=0
         'n_violation_paths': 0, 'reached': set(), 'validated': 0, 'samples': [],
         'nontrivial': 0, 'max_depth': 0, 'issues': [], 'functions': set(), 'labels': {},
         'q_sat': 0, 'q_unsat': 0, 'q_unknown': 0, 'solver_s': 0.0, 'decisions': 0, 'forks': 0,
-        'obligations': 0, 'discharged': 0, 'dump': [], 'known_hits': {},
+        'obligations': 0, 'discharged': 0, 'dump': [], 'known_hits': {}, 'digests': {},
     }
     work = [([], [])]
     pending = set()
@@ -217,7 +220,7 @@ def explore(modname, fam, tier, seed=0, workers=None, selftest=False, dump_max=0
                 want_dump = dump_max if len(rep['dump']) < dump_max else 0
                 pending.add(pool.submit(_subtree, (
                     modname, fam.name, tier, pfx, tms, budget_s, 2000,
-                    opts['validate_every'], seed, selftest, want_dump)))
+                    opts['validate_every'], seed, selftest, want_dump, want_digest)))
             if not pending:
                 break
             done, pending = wait(pending, return_when=FIRST_COMPLETED)
@@ -235,6 +238,8 @@ def explore(modname, fam, tier, seed=0, workers=None, selftest=False, dump_max=0
                         rep['known_hits'][kid] = rep['known_hits'].get(kid, 0) + 1
                     elif sum(1 for w in rep['violations'] if w['label'] == v['label']) < 40:
                         rep['violations'].append(v)
+                for k, dg in a['digests']:
+                    rep['digests'].setdefault(k, []).append(dg)
                 rep['reached'] |= a['reached']
                 rep['validated'] += a['validated']
                 rep['nontrivial'] += a['nontrivial']
